@@ -247,7 +247,7 @@ def evaluate(case):
             # recorded findings about match-rule values (F-C03b, F-C01e) are not this property's business
             known = False
             for quirk, _label in c01.QUIRKS:
-                rq, _ = peg.parse(g, cfg, text, quirks=(quirk,))
+                rq, _ = peg.parse(g, cfg, text, quirks=quirk)
                 if rq[0] == "ok" and isinstance(rq[1], peg.Obj) and D.diff(a_, expected_dump(rq[1], True)) is None:
                     known = True
             if not known:
